@@ -59,7 +59,8 @@ fn size_method(ctx: &Context, input: &DeriveInput) -> TokenStream {
             });
             match last {
                 Some(last) => {
-                    quote! { Self::LAST_FIELD_OFFSET + self.#last.size() }
+                    // Not `self.#last.size()`: an inherent method of the field's type with that name would win.
+                    quote! { Self::LAST_FIELD_OFFSET + ::flatty::traits::FlatBase::size(&self.#last) }
                 }
                 None => quote! { 0 },
             }
